@@ -14,13 +14,16 @@ def jobs(tier, seed, prop):
     pre = '#include "tsg_shim.h"\nint tsg_exc;\n#define TSG_NDIM 2\n#define LB %d\n#define LX %d\n' % (LB, LX) + enums + '#line 1 "/verif/contracts/transforms.c"\n' + cf.text(("text",)) + t
     fl = ["%s:%d %s" % (f["file"], f["line"], f["name"]) for f in info["functions"]]
     out = []
-    for lem in ("lemma_roundtrip", "lemma_qscale"):
-        out.append(Job("transforms." + lem, pre + cf.text(("lemma",), [lem]) + cf.text(("harness",), ["h_" + lem]), "h_" + lem, enforce=lem, split=r'lemma_\w+\.assertion\.\d+$',
+    FAMS = {"laguerre": "FAM_LAGUERRE(r)", "hermite": "FAM_HERMITE(r)", "fourier": "((r) == rule_fourier)", "jacobi": "FAM_JACOBI(r)",
+            "canonical": "(!FAM_LAGUERRE(r) && !FAM_HERMITE(r) && !FAM_JACOBI(r) && (r) != rule_fourier)"}
+    for lem, fam in [(l, f) for l in ("lemma_roundtrip", "lemma_qscale") for f in FAMS if not (l == "lemma_roundtrip" and f == "jacobi")]:
+        pre_f = pre.replace("#define LB ", "#define FAMILY(r) %s\n#define LB " % FAMS[fam], 1)
+        out.append(Job("transforms.%s.%s" % (lem, fam), pre_f + cf.text(("lemma",), [lem]) + cf.text(("harness",), ["h_" + lem]), "h_" + lem, enforce=lem, split=r'lemma_\w+\.assertion\.\d+$',
                        pre_unwindset={r'mapCanonicalToTransformed|mapTransformedToCanonical|getQuadratureScale|diffCanonicalTransform|tsg_\w+': 4},
                        timeout=900 if tier == "quick" else 3000, backends=[["--sat-solver", "cadical"], []], functions=fl, info=info,
                        bounded="exact lattice: |a| <= 2^%d, widths 2^k with k <= 10, canonical x = i*2^-%d; dimensions <= 2" % (LB, LX),
                        assumed=["sqrt(x) returns r >= 0 with r*r == x on perfect squares (stub)", "pow is uninterpreted; only its arguments are checked",
                                 "rounding off the lattice and the conformal (asin) map are not covered"],
                        label={"lemma_roundtrip": "L10a/L10b forward and inverse maps are mutual inverses; the Jacobian is the pull-back rate (all rules)",
-                              "lemma_qscale": "L10c quadrature scale per rule family"}[lem]))
+                              "lemma_qscale": "L10c quadrature scale per rule family"}[lem] + " [family: %s]" % fam))
     return out
